@@ -24,7 +24,8 @@ N = {"quick": 12000, "thorough": 200000}
 CAP = {"quick": 30, "thorough": 600}
 POLICIES = [(dp, iu, sv) for dp in (False, True) for iu in (False, True) for sv in (None, "update", "update-and-boot")]
 NAMES = ["nordicsemi.com", "nRF54H20_sample_root", "", "a", "acme.org", "Zażółć gęślą jaźń", "中文名", "😀", "x" * 300,
-         "with space", "a,b", "UPPER", "-dash", "tab\tname", "nRF54H20_sample_app"]
+         "with space", "a,b", "UPPER", "-dash", "tab\tname", "nRF54H20_sample_app",
+         "6ba7b810-9dad-11d1-80b4-00c04fd430c8", "0123456789abcdef0123456789abcdef", "123", "true", "0", " lead", "trail "]
 SIZES = [48, 49, 64, 256, 4096]
 
 
